@@ -508,7 +508,9 @@ def rule_P5(ctx):
     for p in prs:
         conds = path_conds_struct(ctx, rb, p)
         if p.ret == A(b):
-            ok = any((not t) and c == f"mod(len({b}),{fs}) != 0" for c, t, _ in p.conds) or any(t and c == f"mod(len({b}),{fs}) == 0" for c, t, _ in p.conds)
+            from .util import norm_conds
+            nc = norm_conds(p)
+            ok = any((not t) and c == f"mod(len({b}),{fs}) != 0" for c, t in nc) or any(t and c == f"mod(len({b}),{fs}) == 0" for c, t in nc)
         else:
             ok = p.ret == want
         ctx.ob("P5", p.ret_node, "resize_buffer returns the longest prefix that is a whole number of frames", ok, "" if ok else f"returns {p.ret.key() if p.ret else None} under [{p.cond_key()}]", inst=f"resize:{p.cond_key()}")
